@@ -9,10 +9,10 @@ TIERS = {
 }
 
 DIRECTED = {
-    "quick": [("nested_threads_lossmin", 1), ("nested_threads_lossmin", 2), ("batching_weighted_loss", 3), ("single_int_seed", 4), ("single_povmt", 5), ("four_levels", 6), ("parent_tolerance", 7), ("parent_tolerance", 8)]
+    "quick": [("nested_threads_lossmin", 1), ("nested_threads_lossmin", 2), ("batching_weighted_loss", 3), ("single_int_seed", 4), ("single_povmt", 5), ("four_levels", 6), ("parent_tolerance", 7), ("parent_tolerance", 8), ("two_settings", 9), ("two_settings", 10), ("two_settings", 11)]
     + [("nested_threads_matrix", 300 + i) for i in range(15)],
     "thorough": [("nested_threads_lossmin", i) for i in range(1, 13)] + [("batching_weighted_loss", 20 + i) for i in range(8)]
-    + [("single_int_seed", 40 + i) for i in range(8)] + [("single_povmt", 60 + i) for i in range(4)] + [("four_levels", 80 + i) for i in range(8)] + [("parent_tolerance", 100 + i) for i in range(8)] + [("nested_threads_matrix", 300 + i) for i in range(90)],
+    + [("single_int_seed", 40 + i) for i in range(8)] + [("single_povmt", 60 + i) for i in range(4)] + [("four_levels", 80 + i) for i in range(8)] + [("parent_tolerance", 100 + i) for i in range(8)] + [("two_settings", 120 + i) for i in range(12)] + [("nested_threads_matrix", 300 + i) for i in range(90)],
 }
 
 # real-joblib calibration of the SimParallel model (thorough tier; see selftest/joblib_calibration.py)
@@ -39,7 +39,7 @@ COMPONENTS = {
         "joblib.Parallel -> poolsim.simpool.SimParallelFactory (process level: per-batch pickling, per-worker process globals, seeded batch/worker/order choice; thread level: real threads passing a baton at sys.monitoring events; deeper: sequential)",
         "module attribute `time` of 8 quara modules -> SimClock (simulated time, scripted jumps)",
     ],
-    "reference_model": "the same flow call made serially (parallel_mode=None) on freshly built inputs with pristine process globals and a monotone clock",
+    "reference_model": "the same flow call made serially (parallel_mode=None) on freshly built inputs with pristine process globals and a monotone clock; for calls that handle two test settings, also the setting under study run alone (H9)",
 }
 
 ASSUMPTIONS = [
@@ -56,5 +56,5 @@ PROBES = [
     "two_tasks_in_flight_in_threads", "switch_on_hot_line_of_mutator_function", "switch_inside_loss_or_algo_configuration_or_optimize", "switch_inside_composite_system_table_code",
     "batch_with_2plus_tasks_sharing_objects", "worker_reused_with_dirty_global_rng", "backwards_clock_inside_timed_section",
     "H7_verdict_ok", "H7_verdict_ng", "H7_undecided", "H5_decisive", "H5_trivial",
-    "task_failure_propagated", "crash_survivor_reestimated", "crash_survivor_unreadable", "crash_full_reestimate_returned", "crash_full_reestimate_raised",
+    "two_test_settings_in_one_call", "task_failure_propagated", "crash_survivor_reestimated", "crash_survivor_unreadable", "crash_full_reestimate_returned", "crash_full_reestimate_raised",
 ]
